@@ -135,43 +135,55 @@ func setBitfield(bytes []byte, start, width int, value int64) {
 	}
 }
 
-func isSignedSumOverflow(a, b int64, bits int) bool {
-	signBit := int64(1) << (bits - 1)
-	if b > 0 {
-		ceiling := signBit - 1
-		return b > (ceiling - a)
-	} else {
-		bottom := ^(signBit - 1)
-		return b < (bottom - a)
+// signedBitfieldOverflow reports whether value+incr leaves the range of a
+// 'bits'-wide signed field (dir > 0 overflow, dir < 0 underflow) and returns
+// the sum wrapped to that width, sign extended (Redis'
+// checkSignedBitfieldOverflow).
+func signedBitfieldOverflow(value, incr int64, bits int) (dir int, wrapped int64) {
+	max := int64(uint64(1)<<(bits-1) - 1)
+	min := -max - 1
+
+	// differences computed this way cannot overflow when value is in range;
+	// when it is not, the first clause of each test decides
+	maxincr := max - value
+	minincr := min - value
+
+	if value > max || (bits != 64 && incr > maxincr) || (value >= 0 && incr > 0 && incr > maxincr) {
+		dir = 1
+	} else if value < min || (bits != 64 && incr < minincr) || (value < 0 && incr < 0 && incr < minincr) {
+		dir = -1
 	}
-}
 
-func isUnsignedOverflow(value int64, bits int) bool {
-	// bits for unsigned values is 63 or less, per redis restrictions
-	highBit := uint64(1) << bits
-
-	if value < 0 {
-		value = -value
-	}
-	return uint64(value) >= highBit
-}
-
-func saturateValue(signed bool, value int64, bits int) int64 {
-	if signed {
-		signBit := uint64(1) << (bits - 1)
-		valueMask := signBit - 1
-		if value < 0 {
-			return int64(^valueMask)
+	c := uint64(value) + uint64(incr)
+	if bits < 64 {
+		mask := ^uint64(0) << bits
+		if c&(uint64(1)<<(bits-1)) != 0 {
+			c |= mask
 		} else {
-			return int64(valueMask)
+			c &^= mask
 		}
-	} else if value < 0 {
-		return 0
+	}
+	wrapped = int64(c)
+	return
+}
+
+// unsignedBitfieldOverflow is the unsigned counterpart (bits <= 63); a SET
+// passes the new value with incr 0, so a negative argument reads as a huge
+// unsigned value and overflows upwards (Redis'
+// checkUnsignedBitfieldOverflow).
+func unsignedBitfieldOverflow(value uint64, incr int64, bits int) (dir int, wrapped uint64) {
+	max := uint64(1)<<bits - 1
+	maxincr := max - value
+	minincr := -int64(value)
+
+	if value > max || (incr > 0 && uint64(incr) > maxincr) {
+		dir = 1
+	} else if incr < 0 && incr < minincr {
+		dir = -1
 	}
 
-	// bits max is 64 for signed, 63 for unsigned, per redis
-	highBit := int64(1) << bits
-	return highBit - 1
+	wrapped = (value + uint64(incr)) & max
+	return
 }
 
 func signExtend(value int64, bits int) int64 {
